@@ -81,6 +81,10 @@ type vERand struct {
 	PLose       float64 `json:"plose"`
 	PRestart    float64 `json:"prestart"`
 	MaxRestarts int     `json:"maxrestarts"`
+	// PHide > 0: the messages between a candidate and a data-bearing member whose log is newer than the
+	// candidate's own position are lost with this probability in the VOTE round and never in the PROPOSAL
+	// round (the fresher member is not seen in the vote round but answers the proposal); PLose elsewhere
+	PHide float64 `json:"phide,omitempty"`
 }
 
 type vEScenario struct {
@@ -90,6 +94,10 @@ type vEScenario struct {
 	Rounds  int           `json:"rounds"`
 	Steps   []vEStep      `json:"steps"`
 	Rand    *vERand       `json:"rand,omitempty"`
+	// Epilogue: after the scripted steps every candidacy that the REAL code left half-way (a phase succeeded
+	// and the script never started the next one - the code went on where the script's author, the model,
+	// had stopped) is run to its end with every message delivered, so that the monitor sees its outcome.
+	Epilogue bool `json:"epilogue,omitempty"`
 }
 
 // ---------------------------------------------------------------- bench objects
@@ -768,12 +776,40 @@ func (b *vEBench) runRandom(r *vERand) {
 			st = starts[rng.Intn(len(starts))]
 		default:
 			st = msgs[rng.Intn(len(msgs))]
-			if rng.Float64() < r.PLose {
+			p := r.PLose
+			if r.PHide > 0 && b.fresher(st.C, st.M) {
+				switch b.cands[st.C].phase {
+				case "vote":
+					p = r.PHide
+				case "prop":
+					p = 0
+				}
+			}
+			if rng.Float64() < p {
 				st.Op = "l" + st.Op[1:]
 			}
 		}
 		b.step(&st)
 	}
+}
+
+// fresher: member m is data-bearing and its log is newer than candidate c's own log (an arbiter candidate
+// has none: then newer than the log of some other data-bearing member).  Scheduling bias of the random
+// scheduler only; nothing is judged with it.
+func (b *vEBench) fresher(c int, m int) bool {
+	if b.sc.Members[m-1].Arb != 0 || c == m {
+		return false
+	}
+	mgr := b.nodes[c].mgr
+	if b.sc.Members[c-1].Arb == 0 {
+		return mgr.CompareAofId(b.nodes[m].aof, b.nodes[c].aof) > 0
+	}
+	for x := 1; x <= b.n; x++ {
+		if x != m && b.sc.Members[x-1].Arb == 0 && mgr.CompareAofId(b.nodes[m].aof, b.nodes[x].aof) > 0 {
+			return true
+		}
+	}
+	return false
 }
 
 // finish resolves every outstanding slot (lost) so that no goroutine of this scenario survives.
@@ -789,6 +825,42 @@ func (b *vEBench) finish() {
 				b.step(&vEStep{Op: "lreq", C: ci, M: m})
 			case "rsp":
 				b.step(&vEStep{Op: "lrsp", C: ci, M: m})
+			}
+		}
+	}
+}
+
+// epilogue: see vEScenario.Epilogue.  Deterministic: candidates in index order, members in index order,
+// everything delivered.
+func (b *vEBench) epilogue() {
+	marked := false
+	for ci := 1; ci <= b.n; ci++ {
+		c := b.cands[ci]
+		if c == nil {
+			continue
+		}
+		for k := 0; k < 3 && !c.running; k++ {
+			next := map[string]string{"voted": "prop", "proped": "commit", "won": "save"}[c.phase]
+			if next == "" {
+				break
+			}
+			st := vEStep{Op: next, C: ci}
+			if ok, _ := b.enabled(&st); !ok {
+				break
+			}
+			if !marked {
+				b.tr.Emit(map[string]interface{}{"e": "epilogue", "c": ci, "phase": c.phase})
+				marked = true
+			}
+			b.step(&st)
+			if next == "save" {
+				break
+			}
+			for m := 1; m <= b.n; m++ {
+				if c.running && c.slots[m] == "req" {
+					b.step(&vEStep{Op: "dreq", C: ci, M: m})
+					b.step(&vEStep{Op: "drsp", C: ci, M: m})
+				}
 			}
 		}
 	}
@@ -841,6 +913,10 @@ func TestVerifE(t *testing.T) {
 			b.runRandom(sc.Rand)
 		}
 		b.finish()
+		if sc.Epilogue {
+			b.epilogue()
+			b.finish()
+		}
 		b.emit(map[string]interface{}{"e": "end", "name": sc.Name, "idx": i})
 		b.Close()
 	}
